@@ -370,12 +370,16 @@ def run_nf(chk, rng, ncases, grounds=(None, None, 'ideal'), tol=1e-8, maxp=22, f
             chk.tie_broken('correspondence', 'nf', 'case %d: model returned %d numbers for %d points' % (r['id'], len(v), len(o['pts']))); nbad += 1; continue
         E = [[complex(float.fromhex(a), float.fromhex(b)) for a, b in e] for e in o['E']]
         H = [[complex(float.fromhex(a), float.fromhex(b)) for a, b in e] for e in o['H']]
-        emax = max([abs(c) for e in E for c in e] + [1e-300]); hmax = max([abs(c) for e in H for c in e] + [1e-300])
+        emax = max([abs(c) for e in E for c in e if abs(c) == abs(c)] + [1e-300]); hmax = max([abs(c) for e in H for c in e if abs(c) == abs(c)] + [1e-300])
         bad = []
         for k in range(len(o['pts'])):
             npts += 1
             for c in range(3):
                 me = complex(v[12 * k + 2 * c], v[12 * k + 2 * c + 1]); mh = complex(v[12 * k + 6 + 2 * c], v[12 * k + 6 + 2 * c + 1])
+                if not all(math.isfinite(x) for x in (E[k][c].real, E[k][c].imag, H[k][c].real, H[k][c].imag)):
+                    # non-finite on both sides (a solution with negative input power): nothing to compare
+                    if all(x != x or abs(x) == float('inf') for x in (me.real, me.imag)):
+                        continue
                 ee = abs(me - E[k][c]) / emax; eh = abs(mh - H[k][c]) / hmax
                 worst = max(worst, ee, eh)
                 if not ee <= tol or not eh <= tol:
